@@ -13,8 +13,12 @@ TDelay == /\ Is("delaypub")
                /\ Ev.err = e.err /\ Ev.calls = e.calls
                /\ e.calls = 1 => (Ev.order /\ Ev.from = e.from /\ Ev.agree)
           /\ Adv
-TPubStack == Is("pubstack") /\ Ev.calls = 1 /\ Ev.order /\ Ev.applied /\ Ev.err = (Ev.inner = "error") /\ Ev.closes = 1 /\ Adv
-TSubStack == Is("substack") /\ Ev.received = Ev.n /\ Ev.order /\ Ev.applied /\ Ev.settles /\ Ev.closes = 1 /\ Adv
+\* counted: what the Prometheus registry saw of this Publish call -- once when the stack holds a metrics decorator (however many), else not at all
+TPubStack == Is("pubstack") /\ Ev.calls = 1 /\ Ev.order /\ Ev.applied /\ Ev.err = (Ev.inner = "error") /\ Ev.closes = 1
+             /\ (Has("counted") => Ev.counted = (IF Ev.hasmetrics THEN 1 ELSE 0)) /\ Adv
+\* every Close call on the stack reaches the inner subscriber once (wantcloses = number of Close calls made)
+TSubStack == Is("substack") /\ Ev.received = Ev.n /\ Ev.order /\ Ev.applied /\ Ev.settles
+             /\ Ev.closes = (IF Has("wantcloses") THEN Ev.wantcloses ELSE 1) /\ Adv
 \* CountersEqualEvents: every publish call, settled received message and handler invocation is counted exactly once with the right label
 \* ... and under the names of the handler (H), its publisher ("pub") and its subscriber ("sub") it happened in
 TMetrics == /\ Is("metrics") /\ Ev.observed = Ev.expected
